@@ -29,10 +29,10 @@ GStep == /\ Len(h) < D /\ UNCHANGED done
             \/ \E s \in Slots : ReallocUnknown(s) /\ Step("realloc", "", s, s, S(1), Z, "none", 0, 0, "")
             \/ \E s \in Slots, v \in Vals : \E pos \in 0..(IF blk[s] = NoBlk THEN 0 ELSE blk[s].size + Guard - 1) :
                   Write(s, pos, v) /\ Step("write", "", s, 0, Z, Z, "none", pos, v, "")
-            \/ \E rel \in RelEps, s \in Slots, off \in 0..MaxOff :
+            \/ \E rel \in RelGen, s \in Slots, off \in 0..MaxOff :
                   Release(rel, s, off) /\ Step("release", rel, s, 0, Z, Z, "none", off, 0, "")
-            \/ \E rel \in RelEps : ReleaseForeign(rel) /\ Step("release", rel, -2, 0, Z, Z, "none", 0, 0, "")
-            \/ \E rel \in RelEps : ReleaseNull(rel) /\ Step("release", rel, -1, 0, Z, Z, "none", 0, 0, "")
+            \/ \E rel \in RelGen : ReleaseForeign(rel) /\ Step("release", rel, -2, 0, Z, Z, "none", 0, 0, "")
+            \/ \E rel \in RelGen : ReleaseNull(rel) /\ Step("release", rel, -1, 0, Z, Z, "none", 0, 0, "")
             \/ SetTypeCheck(~typeCheck) /\ Step("typecheck", "", 0, 0, Z, Z, "none", 0, IF typeCheck THEN 0 ELSE 1, "")
             \/ \E f \in Families, v \in Variants :
                   v # cur[f] /\ SetAlloc(f, v) /\ Step("setalloc", f, 0, 0, Z, Z, "none", 0, 0, v)
